@@ -71,10 +71,12 @@ class Ctx:
         self.tier = tier
         self.items = []  # dicts: status, rule, key, where, note
         self._seen = set()
+        self.raw = 0  # verdicts issued, repeats of one (status, key) included
         self.info = {}
 
     # -- verdict sinks ---------------------------------------------------
     def _dup(self, status, key):
+        self.raw += 1
         k = (status, key)
         if k in self._seen:
             return True
@@ -146,6 +148,7 @@ def run_property(prop, tier="quick", db=None, only_rule=None, quiet=False):
     errors = []
     items = []
     rule_stats = []
+    raw_total = 0
     infos = {}
     try:
         if db is None:
@@ -188,6 +191,7 @@ def run_property(prop, tier="quick", db=None, only_rule=None, quiet=False):
         except Exception:
             errors.append("%s: internal error\n%s" % (spec.rid, traceback.format_exc()))
         items.extend(ctx.items)
+        raw_total += ctx.raw
         if ctx.info:
             infos[spec.rid] = ctx.info
         rule_stats.append(
@@ -248,7 +252,8 @@ def run_property(prop, tier="quick", db=None, only_rule=None, quiet=False):
         s = {k: it[k] for k in ("rule", "key", "where", "status", "note")}
         if s not in samples:
             samples.append(s)
-    distinct = len({(i["rule"], i["key"]) for i in items})
+    # distinct and non-trivial: distinct (rule, key) pairs whose verdict is tied to a location in /repo's source
+    distinct = len({(i["rule"], i["key"]) for i in items if "mako/" in str(i.get("where") or "")})
     evidence = {
         "property_id": prop,
         "tier": tier if tier in ("quick", "thorough") else "quick",
@@ -265,9 +270,9 @@ def run_property(prop, tier="quick", db=None, only_rule=None, quiet=False):
             ),
             "obligations": n_obl,
             "discharged": n_ok,
-            "evaluations": max(n_obl, 0),
+            "evaluations": max(raw_total, n_obl),
             "distinct_nontrivial": distinct,
-            "rule": "one obligation per (rule, construct key); distinct = distinct (rule,key) pairs; an obligation is non-trivial because each binds to a construct found in /repo's source on this run",
+            "rule": "evaluations = verdicts issued by the rules on this run (a construct reached through several paths / flag assignments is judged several times); obligations = verdicts after merging repeats of one (rule, key); distinct_nontrivial = distinct (rule, key) pairs whose verdict is tied to a file/function location found in /repo's source on this run (verdicts about delegated or absent constructs, which carry no location, are not counted)",
             "samples": samples,
             "rules": rule_stats,
             "analysed": db.summary() if db is not None else {},
